@@ -37,6 +37,9 @@ def render(script, vals, opts=None):
     for k, s in enumerate(opts.get("clock") or []):
         if s == "lag":
             lines.append(f"clock {k} lag {g(f'lag{k}.d')}")
+        elif isinstance(s, dict) and s["op"] == "sched":
+            d = g(f"k{k}.t") if s["dl"] == "abs" else g(f"k{k}.d")
+            lines.append(f"clock {k} sched {s['kind']} {s['dl']} {d} {g(f'k{k}.p')} {s['id']}")
     for i, c in enumerate(script):
         op = c["op"]
         if op == "sched":
@@ -122,6 +125,8 @@ def run_native(exe, text, path, threads=1, timeout=20):
                 cur.events.append(("sync", z3.IntVal(int(t[3]))))
             elif k == "esched":
                 cur.events.append(("esched", int(t[3]), _parse_res(t[4:])))
+            elif k == "csched":
+                cur.events.append(("csched", int(t[3]), _parse_res(t[4:])))
             elif k == "ecancel":
                 cur.events.append(("ecancel", int(t[3])))
         elif t[0] == "res" and cur is not None:
